@@ -3,6 +3,9 @@
 import json, os, glob
 HERE = os.path.dirname(os.path.dirname(os.path.abspath(__file__)))
 CHECKS = {
+ "C09": dict(cat="model_checking", tech="exhaustive exploration of all document permutations x load paths (one YAML stream, from_dicts, merge at every cut, load_ruleset files) of each rule-set template on the real SigmaCollection/Backend; order-independence and reference-model invariants in every state",
+             text="For every rule-set template (<= 6 documents quick, 7 thorough; references by name/id, chains of depth 3, shared, missing, generate on/off) every permutation and every load path is loaded, resolved and converted; outcome signature must be identical across all of them, referenced rules precede referrers, the emitted set equals the reference, plain-rule queries equal stand-alone conversion, a missing reference is a SigmaError at load time, resolving twice is idempotent.",
+             note="correlation query text judged by C10; reference emitted-set model in checks/c09_references.py", ref="§3 C09"),
  "C08": dict(cat="model_checking", tech="explicit-state exploration of the real Backend.convert by history replay: all rule-kind sequences up to length 4-5 x collect_errors x pipeline x backend config; invariant vs per-rule fresh conversions",
              text="Every collection (sequence over an 11-kind menu with a failing kind per stage) up to the length bound is converted on fresh real objects; in every reached state the queries must equal the concatenation of per-rule fresh conversions, error records one per failing rule in order, class attributes restored, and a probe conversion on the used backend equal to a fresh one. States, transitions and histories are counted by the run; replay determinism is checked first.",
              note="reference = fresh per-rule conversion with the same configuration; finalizers are covered by C14", ref="§3 C08"),
